@@ -80,6 +80,34 @@ def kernel_binding(prog, pub, path):
         bind[p] = (root, a)
         casts[p] = cs
     if path.backend == 'numpy':
+        # a plain runner in front of the kernel (`def _run_numpy(a, b): return _kernel(a.astype('f4'), b.astype('f4'))`): the
+        # kernel is what it calls, the casts it applies are added to the wrapper's
+        for _ in range(3):
+            if f.jit is not None or f.is_lambda:
+                break
+            rets = [r for r in f.own_nodes() if isinstance(r, ast.Return) and r.value is not None]
+            if len(rets) != 1 or not isinstance(rets[0].value, ast.Call):
+                break
+            c = rets[0].value
+            g = prog.resolve_callable(f, f.module, c.func)
+            if not isinstance(g, Func) or g.is_lambda or not prog.same_unit(f.module, g.module) or any(isinstance(a, ast.Starred) for a in c.args):
+                break
+            nb, nc = {}, {}
+            okk = True
+            for p, a in list(zip(g.params, c.args)) + [(k.arg, k.value) for k in c.keywords if k.arg]:
+                a = local_value(f, a)
+                root, cs = band_root(a)
+                if root in bind:
+                    nb[p] = bind[root]
+                    nc[p] = casts[root] + cs
+                elif isinstance(a, ast.Constant):
+                    nb[p] = (None, a)
+                    nc[p] = cs
+                else:
+                    okk = False
+            if not okk:
+                break
+            f, bind, casts = g, nb, nc
         return f, bind, casts, None
     mbs = map_blocks_call(prog, f)
     if len(mbs) != 1:
